@@ -134,6 +134,21 @@ pub fn run(cfg: &Cfg) -> i32 {
                                     continue;
                                 }
                                 rep.count("results-compared-equal");
+                                // the value and text themselves: judged by the reference interpreter when the function reads
+                                // nothing but its arguments and globals (their values are taken from the story)
+                                if let (Some(ast), Op::EvalFn(fname, fargs)) = (&c.ast, &call) {
+                                    match expected_result(ast, fname, fargs, &inj.state_before) {
+                                        Some(exp) => {
+                                            rep.count("value-and-text-judged");
+                                            let got = a.trim_end_matches(['\n', ' ']).replace("\\n\"", "\"");
+                                            if normalise_result(&got) != normalise_result(&exp) {
+                                                rep.violation("host-eval/valid/wrong-result", witness("the value or text differs from what the function's source prescribes", json!({"expected": exp, "returned": a})));
+                                                continue;
+                                            }
+                                        }
+                                        None => rep.count("value-not-judged(function reads counts)"),
+                                    }
+                                }
                             }
                             (a, _) => {
                                 rep.violation("host-eval/valid/failed", witness("evaluate_function of an existing function failed", json!(format!("{a:?}"))));
@@ -187,4 +202,89 @@ pub fn run(cfg: &Cfg) -> i32 {
         }
     }
     rep.finish()
+}
+
+
+fn reads_counts_expr(e: &crate::r#gen::ast::Expr) -> bool {
+    use crate::r#gen::ast::Expr;
+    match e {
+        Expr::ReadCount(_) | Expr::TurnsSince(_) | Expr::ChoiceCount | Expr::Turns | Expr::Call(..) | Expr::ListLit(_) | Expr::Target(_) => true,
+        Expr::Bin(a, _, b) => reads_counts_expr(a) || reads_counts_expr(b),
+        Expr::Not(a) | Expr::Neg(a) => reads_counts_expr(a),
+        _ => false,
+    }
+}
+
+fn reads_counts_inl(xs: &[crate::r#gen::ast::Inline]) -> bool {
+    use crate::r#gen::ast::Inline;
+    xs.iter().any(|x| match x {
+        Inline::Expr(e) => reads_counts_expr(e),
+        Inline::Cond(c, a, b) => reads_counts_expr(c) || reads_counts_inl(a) || b.as_ref().is_some_and(|b| reads_counts_inl(b)),
+        Inline::Seq(..) => true,
+        _ => false,
+    })
+}
+
+fn reads_counts(b: &[crate::r#gen::ast::Stmt]) -> bool {
+    use crate::r#gen::ast::Stmt;
+    b.iter().any(|s| match s {
+        Stmt::Line(xs, _) => reads_counts_inl(xs),
+        Stmt::Return(Some(e)) | Stmt::Eval(e) => reads_counts_expr(e),
+        Stmt::Return(None) => false,
+        Stmt::If(br, els) => br.iter().any(|(c, b)| reads_counts_expr(c) || reads_counts(b)) || els.as_ref().is_some_and(|b| reads_counts(b)),
+        _ => true,
+    })
+}
+
+/// "value text=..." as the player records it, computed from the source by the reference interpreter
+fn expected_result(ast: &crate::r#gen::ast::Program, fname: &str, args: &[Val], before: &crate::player::FullState) -> Option<String> {
+    use crate::refint::eval::V;
+    let k = ast.knots.iter().find(|k| k.name == fname)?;
+    if reads_counts(&k.body) {
+        return None;
+    }
+    let ir = std::rc::Rc::new(crate::refint::ir::flatten(ast));
+    let mut ri = crate::refint::interp::Refint::new_lenient(ast, ir, 50_000);
+    for (name, shown) in before.vars.iter() {
+        let v = if let Some(x) = shown.strip_prefix("int:") {
+            V::Int(x.parse().ok()?)
+        } else if let Some(x) = shown.strip_prefix("bool:") {
+            V::Bool(x == "true")
+        } else if let Some(x) = shown.strip_prefix("str:") {
+            V::Str(serde_json::from_str::<String>(x).ok()?)
+        } else {
+            continue;
+        };
+        ri.globals.insert(name.clone(), v);
+    }
+    let vals: Vec<V> = args
+        .iter()
+        .map(|a| match a {
+            Val::Int(i) => V::Int(*i),
+            Val::Bool(b) => V::Bool(*b),
+            Val::Str(s) => V::Str(s.clone()),
+            Val::Float(f) => V::Float(*f),
+        })
+        .collect();
+    let (v, text) = ri.host_call(fname, vals).ok()?;
+    let shown = match v {
+        None => "none".to_string(),
+        Some(V::Int(i)) => format!("int:{i}"),
+        Some(V::Bool(b)) => format!("bool:{b}"),
+        Some(V::Str(s)) => format!("str:{s:?}"),
+        Some(V::Float(f)) => format!("float:{f:?}"),
+        Some(V::List(_)) => return None,
+    };
+    Some(format!("{shown} text={text:?}"))
+}
+
+/// value part as is; text part compared without trailing line breaks
+fn normalise_result(s: &str) -> String {
+    match s.split_once(" text=") {
+        Some((v, t)) => {
+            let t: String = serde_json::from_str::<String>(t).unwrap_or_else(|_| t.to_string());
+            format!("{v} text={}", t.trim_end())
+        }
+        None => s.to_string(),
+    }
 }
